@@ -12,6 +12,7 @@ import LemoModel.Mpt
 import LemoProofs.Lemmas.Merkle
 import LemoProofs.Lemmas.Mpt
 import LemoProofs.C17Store
+import LemoProofs.C17Decode
 namespace LemoProofs.C17
 open LemoModel.Merkle LemoProofs.MerkleLemmas
 
